@@ -756,6 +756,16 @@ impl Property for C02 {
                     }
                 }
             }
+            // rows that an (accepted) crafted version moved into the synchronised room during this very pull: the
+            // verdicts on their references were computed against the room they were in before; the move itself is
+            // judged as a row, their references are not judged
+            let moved_into_r: BTreeSet<String> = after
+                .nodes
+                .iter()
+                .filter(|n| n.room.as_deref() == Some(r64.as_str()))
+                .filter(|n| before.nodes.iter().any(|b| b.id == n.id && b.room.as_deref() != Some(r64.as_str())))
+                .map(|n| n.id.clone())
+                .collect();
             let before_edges: BTreeSet<String> = before.edges.iter().map(|e| e.sig.clone()).collect();
             for e in &after.edges {
                 if before_edges.contains(&e.sig) {
@@ -764,6 +774,8 @@ impl Property for C02 {
                 if let Some((_, ok, why)) = edge_verdict.iter().find(|(x, _, _)| b64(&x.signature) == e.sig) {
                     if *ok {
                         stored_ok += 1;
+                    } else if why.contains("another room") && moved_into_r.contains(&e.src) {
+                        o.label("reference-of-a-row-moved-into-the-room-by-the-same-pull:not-judged");
                     } else {
                         let kind = if why.contains("another room") { "source-row-in-other-room" } else if why.contains("reference field") { "label-not-in-model" } else { "author-without-right" };
                         let sig = format!("reference-stored-without-entitlement:{}", kind);
@@ -781,7 +793,8 @@ impl Property for C02 {
                 // the reference vanished: an allowed deletion record, or its source / destination row was legitimately deleted
                 let covered = edel_verdict.iter().any(|(d, ok, _)| *ok && b64(&d.src) == e.src && b64(&d.dest) == e.dest)
                     || !after_ids.contains(&e.src)
-                    || !after_ids.contains(&e.dest);
+                    || !after_ids.contains(&e.dest)
+                    || moved_into_r.contains(&e.src);
                 if !covered {
                     let sig = "reference-deleted-without-entitlement".to_string();
                     if seen.insert(sig.clone()) {
@@ -795,6 +808,10 @@ impl Property for C02 {
                     continue;
                 }
                 if let Some((_, false, why)) = edel_verdict.iter().find(|(x, _, _)| b64(&x.signature) == d.sig) {
+                    if why.contains("another room") && moved_into_r.contains(&d.src) {
+                        o.label("reference-of-a-row-moved-into-the-room-by-the-same-pull:not-judged");
+                        continue;
+                    }
                     let sig = "reference-deletion-record-stored-without-entitlement".to_string();
                     if seen.insert(sig.clone()) {
                         o.violation(sig, format!("{}", why));
